@@ -1036,7 +1036,8 @@ class String2Key(Field):
         if self.specifier == String2KeyType.Iterated and self.count > len(hsalt + hpass):
             count = self.count
 
-        hcount = (count // len(hsalt + hpass))
+        # an empty passphrase with no salt hashes nothing (only the preloaded zero octets)
+        hcount = (count // len(hsalt + hpass)) if len(hsalt + hpass) else 0
         hleft = count - (hcount * len(hsalt + hpass))
 
         hashdata = ((hsalt + hpass) * hcount) + (hsalt + hpass)[:hleft]
